@@ -27,6 +27,10 @@ ASSUMPTIONS = [
     "scale for values = max(1, max|y|); for derivatives = max|y| / min gap; "
     "root residual bound = object tolerance + 1e-9 * scale, extremum "
     "residual bound = tolerance + 1e-8 * derivative scale",
+    "value and derivative bounds carry a double-precision allowance of "
+    "1e-13 times the sum of the absolute values of the Newton-form terms at "
+    "the query (a table with a wide hole gives |P'| ~ 1e7 for |y| <= 10, "
+    "where 1e-9 * max|y| / min gap is below one ulp of the answer)",
     "root()/minmax() cases where max slope * ulp(x) * 8 exceeds the object's "
     "absolute tolerance 1e-10 (wildly oscillating interpolants) are not "
     "judged: the tolerance is not reachable in double precision there",
@@ -111,6 +115,30 @@ class Poly(object):
             dv = v + (t - self.x[i]) * dv
             v = self.c[i] + (t - self.x[i]) * v
         return dv
+
+
+def abs_sums(P, t):
+    """(A, A') for the Newton form P at t: the sums of the absolute values
+    of the terms of P(t) and of P'(t).  Rounding error of any evaluation of
+    the Newton form in doubles is a small multiple of eps * A (eps * A' for
+    the derivative), however large the cancellation between the terms."""
+    c = [abs(float(v)) for v in P.c]
+    xs = [float(v) for v in P.x]
+    t = float(t)
+    A = Ad = 0.0
+    for k, ck in enumerate(c):
+        f = [abs(t - xs[i]) for i in range(k)]
+        prod = 1.0
+        for v in f:
+            prod *= v
+        A += ck * prod
+        for j in range(k):
+            pj = 1.0
+            for i, v in enumerate(f):
+                if i != j:
+                    pj *= v
+            Ad += ck * pj
+    return A, Ad
 
 
 def num(v):
@@ -282,10 +310,16 @@ def case_table(mon, xs, ys, kind, qseed):
             mon.dev("forms-and-order-agree", dict(case, form=name,
                                                   raised=repr(ex)))
     worst = 0.0
+    Psorted = Poly(sx, [ys[xs.index(v)] for v in sx])
     for q in qs:
         mon.evals += 1
         want = P(q)
         wantd = P.d(q)
+        # double-precision allowance: a table with a wide hole makes a wild
+        # polynomial (|P'| ~ 1e7 for |y| <= 10 was seen) whose value carries
+        # rounding noise far above 1e-9 * max|y|
+        A, Ad = abs_sums(Psorted, q)
+        fpv, fpd = 1e-13 * A, 1e-13 * Ad
         try:
             v = num(itp(q))
             dv = num(itp.derivative(q))
@@ -302,11 +336,11 @@ def case_table(mon, xs, ys, kind, qseed):
             err = Fraction(0)
             mon.cls("query-within-tolerance-of-a-node", ("nq", q) + ident)
         worst = max(worst, float(err) / scale)
-        mon.check("value==exact-interpolant", err <= 1e-9 * scale,
+        mon.check("value==exact-interpolant", err <= 1e-9 * scale + fpv,
                   lambda: dict(case, at=q, got=v, exact=float(want)))
         derr = abs(Fraction(dv) - wantd)
         mon.stat("derivative_err/scale", float(derr) / dscale, [xs, ys, q])
-        mon.check("derivative==exact", derr <= 1e-9 * dscale,
+        mon.check("derivative==exact", derr <= 1e-9 * dscale + fpd,
                   lambda: dict(case, at=q, got=dv, exact=float(wantd)))
         for name, o in objs.items():
             try:
@@ -316,10 +350,11 @@ def case_table(mon, xs, ys, kind, qseed):
                 mon.dev("forms-and-order-agree",
                         dict(case, form=name, at=q, raised=repr(ex)))
                 continue
-            tolv = 1e-9 * scale + (1e-9 if name == "angle-ordinates" else 0)
+            tolv = 1e-9 * scale + (1e-9 if name == "angle-ordinates" else 0) \
+                + fpv
             mon.check("forms-and-order-agree",
                       abs(v2 - v) <= tolv and abs(d2 - dv) <= 1e-9 * dscale
-                      + (1e-9 if name == "angle-ordinates" else 0),
+                      + fpd + (1e-9 if name == "angle-ordinates" else 0),
                       lambda: dict(case, form=name, at=q, got=[v2, d2],
                                    reference=[v, dv]))
     mon.stat("value_err/scale", worst, [xs, ys])
